@@ -26,6 +26,14 @@ def run(ctx):
     res = {}
     for mode in ("replay", "brute", "request", "e2e"):
         res[mode] = ctx.harness("c17", ["--vectors", gen["out"], "--exp", mc["out"], "--mode", mode], name="c17." + mode)
+    # request side under cancellation (ReqSource.tla): every behaviour with <= MaxCancel dropped reads, replayed on the real source
+    rsb = []
+    for cl in ("m1", "5", "3", "0"):
+        r = ctx.tlc("MCReqSource", "MCReqSource.%s.cfg" % cl, name="MCReqSource." + cl, workers=1, timeout=300,
+                    require_actions=("ReadHead",) if cl == "0" else ("ReadHead", "StartRead", "Cancel", "Deliver", "ClientEof"))
+        ctx.spec_must_hold(r)
+        rsb.append(r["out"])
+    res["reqcancel"] = ctx.harness("c17", ["--mode", "reqcancel", "--rsb", ",".join(rsb)], name="c17.reqcancel")
     beh = res["replay"]["counters"].get("tlc_behaviours_replayed", 0)
     if beh == 0 and not res["replay"].get("notes"):
         raise ToolError("no behaviours were exported by TLC")
